@@ -39,7 +39,8 @@ META = {
     "explanation": (
         "All rules analyse parsers/directives.py after *inlining* its private helpers: single-exit helpers at `x = helper(...)` call sites (parameters "
         "bound, locals renamed, `return e` turned into the assignment of the call statement) and helpers with any number of returns in tail position "
-        "(`return helper(...)`), and pure predicate helpers (straight-line string tests) substituted as expressions; line numbers kept, nothing executed, "
+        "(`return helper(...)`), helpers with early returns at `x = helper(...)` sites (the returns are lowered to if/else nesting without duplicating code), "
+        "and pure predicate helpers (straight-line string tests) substituted as expressions; line numbers kept, nothing executed, "
         "so a function split into "
         "helpers is judged as the one function it is equivalent to; roles (option-spec lookup, converter call, validation loop, result dict, "
         "warnings list, block text, remaining content) are found by data flow, never by name. "
@@ -49,7 +50,10 @@ META = {
         "caller-side digit test with no cursor movement in between; `assert X is not None` in the consumer loop of the token generator is discharged only "
         "by a typestate exploration of (producer CFG location x X is None/set) that never reaches the assert with X unset; the engine's literal-only "
         "guards for int(<hex>, 16) / chr(code) / int(ch) are re-applied with module constants folded; `raise C(...).m(...)` typed Exception by the engine is "
-        "re-typed by m's return annotation and discharged only if other origins of that class leave the same function and none reaches the entry. "
+        "re-typed by m's return annotation and discharged only if other origins of that class leave the same function and none reaches the entry; a finding "
+        "whose construct sits in a try of its own function with `except <tuple constant>` (module-level tuple of exception classes, possibly imported) that "
+        "covers the class and does not re-raise is discharged; in the escape idiom the cursor is advanced over the escape's characters only behind the loop that "
+        "proves them to be hex digits (else IndexError from StreamBuffer.forward at the end of the text); regexes are recognised in every spelling (re.match(P, s), re.compile(P).match(s), CONST.match(s)). "
         "R2: additional_options flow hop by hop from render_fence (fence_as_directive; value built from token.attrs, also through a helper) to the "
         "merge in the options parser; in the merge the operand holding the tokenized block is the later (winning) one (dict display, |, |=, update, "
         "dict(a, **b), setdefault, M[k] = v with/without `k not in M` / `M.get(k) is None` - a guard on the *truthiness* of the block's value is not an absence "
@@ -569,7 +573,7 @@ class _Held(Report):
         setattr(self._real, name, value)
 
     def violation(self, rule_id, key, site, what, path=None):
-        if "|origin=myst_parser.parsers.options:" in key:
+        if "|origin=" in key:
             self.__dict__.setdefault("held", []).append((rule_id, key, site, what, path))
             return
         self._real.violation(rule_id, key, site, what, path)
@@ -583,7 +587,12 @@ class _Held(Report):
             exc = key.split("|")[1]
             fq, _, text = key.split("|origin=", 1)[1].partition("|")
             why = None
-            if exc in ("ValueError", "OverflowError") and text.startswith(("int(", "chr(")):
+            in_tokenizer = fq.startswith("myst_parser.parsers.options:")
+            if ea is not None:
+                why = _caught_by_tuple_constant(self._corpus, ea, key.split("|")[0].split("=", 1)[1], fq, text, exc)
+            if why or not in_tokenizer:
+                pass
+            elif exc in ("ValueError", "OverflowError") and text.startswith(("int(", "chr(")):
                 why = _scalar_guard(self._corpus, fq, text) or (_digit_precondition(self._corpus, fq, text) if text.startswith("int(") else None)
             elif exc == "AssertionError":
                 r = _assert_cannot_fail(self._corpus, fq, text)
@@ -594,6 +603,56 @@ class _Held(Report):
                 self._real.ok(rule_id, key, site, "discharged: " + why)
             else:
                 self._real.violation(rule_id, key, site, what, path)
+
+
+def _caught_by_tuple_constant(corpus: Corpus, ea, entry_fq: str, fq: str, text: str, exc_short: str) -> str | None:
+    """The raising construct sits in a ``try`` of its own function whose handler names a module-level tuple constant of
+    exception classes (possibly imported from another module) that covers the exception, and the handler does not re-raise."""
+    try:
+        fi = corpus.func(fq.replace("myst_parser.", "", 1))
+    except AnchorMissing:
+        return None
+    nodes = [n for n in fi.local_nodes() if isinstance(n, (ast.Call, ast.Raise, ast.Assert)) and short(n) == text]
+    if len(nodes) != 1:
+        return None
+    node = nodes[0]
+    excs = {it.exc for it in ea.summ.get(entry_fq, ()) if it.origin_fq == fq and it.origin_text == text and it.exc.rsplit(".", 1)[-1] == exc_short}
+    if len(excs) != 1:
+        return None
+    exc = next(iter(excs))
+    cur: ast.AST = node
+    for a in ancestors(node):
+        if isinstance(a, (ast.FunctionDef, ast.Lambda)):
+            break
+        if isinstance(a, ast.Try) and any(cur is s_ for s_ in a.body):
+            for h in a.handlers:
+                if h.type is None or not isinstance(h.type, (ast.Name, ast.Attribute)):
+                    continue
+                d = dotted(h.type)
+                full = fi.module.resolve(d or "")
+                modname, _, cname = full.rpartition(".")
+                cm = corpus.modules.get(modname)
+                if cm is None or cname not in cm.const_nodes:
+                    continue
+                tv = cm.const_nodes[cname]
+                if not isinstance(tv, ast.Tuple):
+                    continue
+                classes = []
+                for e_ in tv.elts:
+                    de = dotted(e_)
+                    if de is None:
+                        classes = None
+                        break
+                    classes.append(ea.h.canonical(cm.resolve(de)))
+                if not classes:
+                    continue
+                if any(isinstance(x, ast.Raise) and x.exc is None for s_ in h.body for x in ast.walk(s_)):
+                    continue
+                hit = [c_ for c_ in classes if ea.h.is_sub(exc, c_)]
+                if hit:
+                    return f"caught in {fi.qualname} by `except {d}`, a tuple constant of {cm.name} that lists {hit[0].rsplit('.', 1)[-1]}"
+        cur = a
+    return None
 
 
 def _const_str(fi: FunctionInfo, e: ast.expr) -> str | None:
@@ -619,6 +678,13 @@ def _hex_loop(fi: FunctionInfo, call: ast.Call) -> bool:
     if not (dotted(call.func) == "int" and len(call.args) == 2 and isinstance(call.args[1], ast.Constant) and call.args[1].value == 16):
         return False
     a0 = call.args[0]
+    dname = None
+    if isinstance(a0, ast.Name):
+        # the digits were read once into a local: `digits = S.prefix(N)` ... `for ch in digits: if ch not in HEX: raise`
+        v0 = single_value(fi, a0.id)
+        if v0 is None:
+            return False
+        dname, a0 = a0.id, v0
     if not (isinstance(a0, ast.Call) and isinstance(a0.func, ast.Attribute) and a0.func.attr == "prefix" and len(a0.args) == 1):
         return False
     recv, n_text = unparse(a0.func.value), unparse(a0.args[0])
@@ -627,6 +693,14 @@ def _hex_loop(fi: FunctionInfo, call: ast.Call) -> bool:
     if blk is None:
         return False
     for prev in blk[: blk.index(st)]:
+        if dname is not None and isinstance(prev, ast.For) and isinstance(prev.iter, ast.Name) and prev.iter.id == dname and isinstance(prev.target, ast.Name):
+            for s_ in prev.body:
+                if isinstance(s_, ast.If) and any(isinstance(x, ast.Raise) for x in s_.body):
+                    t = s_.test
+                    if isinstance(t, ast.Compare) and len(t.ops) == 1 and isinstance(t.ops[0], ast.NotIn) and isinstance(t.left, ast.Name) and t.left.id == prev.target.id:
+                        hs = _const_str(fi, t.comparators[0])
+                        if hs and set(hs) <= HEXDIGITS:
+                            return _consumed_after_validation(fi, blk, prev, recv, n_text)
         if isinstance(prev, ast.For) and isinstance(prev.iter, ast.Call) and dotted(prev.iter.func) == "range" and len(prev.iter.args) == 1 and unparse(prev.iter.args[0]) == n_text and isinstance(prev.target, ast.Name):
             kname = prev.target.id
             for s_ in prev.body:
@@ -635,8 +709,25 @@ def _hex_loop(fi: FunctionInfo, call: ast.Call) -> bool:
                     if isinstance(t, ast.Compare) and len(t.ops) == 1 and isinstance(t.ops[0], ast.NotIn) and unparse(t.left) == f"{recv}.peek({kname})":
                         hs = _const_str(fi, t.comparators[0])
                         if hs and set(hs) <= HEXDIGITS:
-                            return True
+                            return _consumed_after_validation(fi, blk, prev, recv, n_text)
     return False
+
+
+EARLY_FORWARD: list = []  # (function, forward call) found while judging: reported by r1 as IndexError origins
+
+
+def _consumed_after_validation(fi: FunctionInfo, blk: list, loop: ast.For, recv: str, n_text: str) -> bool:
+    """validate-before-consume: `S.forward(N)` for the N characters of the escape only behind the loop that proved them to be
+    hex digits (hence inside the text: the end sentinel is not a hex digit). An earlier forward(N) runs past the sentinel when
+    the text ends inside the escape (IndexError in StreamBuffer.forward)."""
+    ok = True
+    for st in blk[: blk.index(loop)]:
+        for c in ast.walk(st):
+            if isinstance(c, ast.Call) and isinstance(c.func, ast.Attribute) and c.func.attr == "forward" and unparse(c.func.value) == recv and len(c.args) == 1 and unparse(c.args[0]) == n_text:
+                ok = False
+                if (fi.fq, short(c)) not in [(f_.fq, short(c_)) for f_, c_ in EARLY_FORWARD]:
+                    EARLY_FORWARD.append((fi, c))
+    return ok
 
 
 def _scalar_guard(corpus: Corpus, fq: str, text: str) -> str | None:
@@ -740,7 +831,23 @@ def r1_failure_mode(corpus: Corpus, rep: Report, tier: str):
         [(None, ENTRY_FQ, [MARKUP_ERROR])],
         "only MarkupError can leave parse_directive_text; the option converter (foreign callable) runs under `except Exception`",
     )
+    del EARLY_FORWARD[:]
     held.rejudge(analyses)
+    # the validate-before-consume obligation of the escape idiom, judged whether or not the engine held a finding there
+    for fi_ in corpus.mod("parsers.options").functions.values():
+        if fi_.is_lambda:
+            continue
+        for c_ in fi_.local_nodes():
+            if isinstance(c_, ast.Call) and dotted(c_.func) == "int" and len(c_.args) == 2 and isinstance(c_.args[1], ast.Constant) and c_.args[1].value == 16:
+                _hex_loop(fi_, c_)
+    for fi_, c_ in list(EARLY_FORWARD):
+        rep.violation(
+            "C08.R1",
+            f"entry=myst_parser.{ENTRY_FQ}|IndexError|origin={fi_.fq}|{short(c_)}",
+            fi_.module.site(c_),
+            f"`{short(c_)}` advances the cursor over the characters of an escape before the loop that validates them: when the text ends inside the escape the cursor runs past the end "
+            "sentinel and StreamBuffer.forward raises IndexError, which is not a TokenizeError and leaves parse_directive_text",
+        )
     # the converter call, located by role (callable looked up in <directive class>.option_spec), independent of the local's name
     vm = validation_machinery(corpus)
     corpus = vm.corpus
@@ -878,21 +985,66 @@ def _inline_call(stmt: ast.stmt, call: ast.Call, fn: ast.FunctionDef, prefix: st
         for n in out:
             ast.fix_missing_locations(n)
         return out
-    ret = body.pop()
-    out.extend(body)
-    val = ret.value if ret.value is not None else ast.Constant(value=None)
-    if isinstance(stmt, ast.Expr):
-        new = [ast.Expr(value=val)]
-    else:
-        tgt = stmt.targets[0] if isinstance(stmt, ast.Assign) else stmt.target
-        if isinstance(tgt, ast.Tuple) and isinstance(val, ast.Tuple) and len(tgt.elts) == len(val.elts) and all(isinstance(e, ast.Name) for e in tgt.elts):
-            new = [ast.Assign(targets=[t_], value=v_) for t_, v_ in zip(tgt.elts, val.elts)]
+    def result_of(ret: ast.Return) -> list[ast.stmt]:
+        val = ret.value if ret.value is not None else ast.Constant(value=None)
+        if isinstance(stmt, ast.Expr):
+            new = [ast.Expr(value=val)]
         else:
-            new = [ast.Assign(targets=[tgt], value=val)]
-    for n in new:
-        n._c08_glue = True  # result assignment generated by the inliner
-        ast.copy_location(n, ret)
-        out.append(n)
+            tgt = stmt.targets[0] if isinstance(stmt, ast.Assign) else stmt.target
+            if isinstance(tgt, ast.Tuple) and isinstance(val, ast.Tuple) and len(tgt.elts) == len(val.elts) and all(isinstance(e, ast.Name) for e in tgt.elts):
+                new = [ast.Assign(targets=[copy.deepcopy(t_)], value=v_) for t_, v_ in zip(tgt.elts, val.elts)]
+            else:
+                new = [ast.Assign(targets=[copy.deepcopy(tgt)], value=val)]
+        for n in new:
+            n._c08_glue = True  # result assignment generated by the inliner
+            ast.copy_location(n, ret)
+        return new
+
+    def definitely_returns(blk: list) -> bool:
+        if not blk:
+            return False
+        last = blk[-1]
+        if isinstance(last, (ast.Return, ast.Raise)):
+            return True
+        return isinstance(last, ast.If) and definitely_returns(last.body) and definitely_returns(last.orelse)
+
+    def has_return(blk: list) -> bool:
+        return any(isinstance(n, ast.Return) for st_ in blk for n in ast.walk(st_))
+
+    def lower(blk: list) -> list | None:
+        """Early returns turned into if/else nesting whose every path ends in the result assignment (no duplication:
+        the statements behind an `if` go into the branch that falls through, the other branch must return)."""
+        res: list = []
+        for i, st_ in enumerate(blk):
+            if isinstance(st_, ast.Return):
+                return res + result_of(st_)
+            if isinstance(st_, ast.If) and (has_return(st_.body) or has_return(st_.orelse)):
+                rest = blk[i + 1 :]
+                b_ret, o_ret = definitely_returns(st_.body), definitely_returns(st_.orelse)
+                if b_ret and o_ret:
+                    nb, no = lower(st_.body), lower(st_.orelse)
+                elif b_ret:
+                    nb, no = lower(st_.body), lower(st_.orelse + rest)
+                elif o_ret:
+                    nb, no = lower(st_.body + rest), lower(st_.orelse)
+                else:
+                    return None
+                if nb is None or no is None:
+                    return None
+                st_.body, st_.orelse = nb, no
+                return res + [st_]
+            if has_return([st_]):
+                return None  # a return inside a loop / try / with
+            res.append(st_)
+        # fell off the end: the helper returns None
+        end = ast.Return(value=ast.Constant(value=None))
+        ast.copy_location(end, stmt)
+        return res + result_of(end)
+
+    low = lower(body)
+    if low is None:
+        return None
+    out.extend(low)
     for n in out:
         ast.fix_missing_locations(n)
     return out
@@ -918,9 +1070,10 @@ def _inline_block(stmts: list, helpers: dict, counter: list) -> tuple[list, bool
                 out.extend(new)
                 changed = True
                 continue
-        if call is not None and isinstance(call.func, ast.Name) and call.func.id in helpers and call.func.id != "__tail__":
+        if call is not None and isinstance(call.func, ast.Name) and call.func.id != "__tail__" and (call.func.id in helpers or call.func.id in helpers.get("__tail__", {})):
             counter[0] += 1
-            new = _inline_call(st, call, helpers[call.func.id], f"_{call.func.id.strip('_')}{counter[0]}__")
+            fn2_ = helpers.get(call.func.id) or helpers["__tail__"][call.func.id]
+            new = _inline_call(st, call, fn2_, f"_{call.func.id.strip('_')}{counter[0]}__")
             if new is not None:
                 out.extend(new)
                 changed = True
@@ -2195,6 +2348,27 @@ def r3_argument_counts(corpus: Corpus, rep: Report, tier: str):
 # R4 one validation path for both option styles
 
 
+def _regex_call(c: ast.AST, f: FunctionInfo) -> tuple[str, ast.expr | None, str] | None:
+    """(pattern, subject, method) of a regex match call in any spelling: ``re.match(P, s)``, ``re.compile(P).match(s)``,
+    ``CONST.match(s)`` with CONST a module constant or single-binding local bound to ``re.compile(P[, flags])``."""
+    if not isinstance(c, ast.Call):
+        return None
+    m_ = f.module
+    d = m_.resolve(dotted(c.func) or "")
+    if d in ("re.match", "re.fullmatch", "re.search") and len(c.args) >= 2 and isinstance(c.args[0], ast.Constant) and isinstance(c.args[0].value, str):
+        return c.args[0].value, c.args[1], d.rsplit(".", 1)[1]
+    if isinstance(c.func, ast.Attribute) and c.func.attr in ("match", "fullmatch", "search") and c.args:
+        recv = c.func.value
+        comp = None
+        if isinstance(recv, ast.Call):
+            comp = recv
+        elif isinstance(recv, ast.Name):
+            comp = single_value(f, recv.id) if recv.id not in m_.const_nodes or simple_defs(f, recv.id) else m_.const_nodes.get(recv.id)
+        if isinstance(comp, ast.Call) and m_.resolve(dotted(comp.func) or "") == "re.compile" and comp.args and isinstance(comp.args[0], ast.Constant) and isinstance(comp.args[0].value, str):
+            return comp.args[0].value, c.args[0], c.func.attr
+    return None
+
+
 def _regex_leading_blank_is_wide(pattern: str) -> bool:
     """Does the pattern start (after anchors) with an optional white-space item that can match more than space/tab?"""
     import re._constants as C
@@ -2304,9 +2478,9 @@ def r4_one_validation_path(corpus: Corpus, rep: Report, tier: str):
                 subject = None
                 if isinstance(c, ast.Call) and isinstance(c.func, ast.Attribute) and c.func.attr == "startswith" and len(c.args) == 1 and isinstance(c.args[0], ast.Constant) and c.args[0].value in ("---", ":"):
                     sty_, subject = c.args[0].value, c.func.value
-                elif isinstance(c, ast.Call) and m.resolve(dotted(c.func) or "") in ("re.match", "re.fullmatch") and len(c.args) >= 2 and isinstance(c.args[0], ast.Constant) and isinstance(c.args[0].value, str):
+                elif _regex_call(c, f) is not None and _regex_call(c, f)[2] in ("match", "fullmatch"):
                     # a regex anchored at the start of the content: the style is its first mandatory character
-                    sty_, subject = _regex_first_char_style(c.args[0].value), c.args[1]
+                    sty_, subject = _regex_first_char_style(_regex_call(c, f)[0]), _regex_call(c, f)[1]
                 if sty_ is not None:
                     c = ast.Call(func=ast.Attribute(value=subject, attr="startswith", ctx=ast.Load()), args=[ast.Constant(value=sty_)], keywords=[])
                     roots = [x for x in ast.walk(subject) if isinstance(x, ast.Name)]
@@ -2461,7 +2635,8 @@ def r4_one_validation_path(corpus: Corpus, rep: Report, tier: str):
                         continue
                     if set(a_) - set(" \t"):
                         yield c_, f"strips {sorted(set(a_) - set(' ' + chr(9)))!r} as well"
-            if isinstance(c_, ast.Call) and m.resolve(dotted(c_.func) or "").startswith("re.") and c_.args and isinstance(c_.args[0], ast.Constant) and isinstance(c_.args[0].value, str) and _regex_leading_blank_is_wide(c_.args[0].value):
+            rc_ = _regex_call(c_, f)
+            if rc_ is not None and _regex_leading_blank_is_wide(rc_[0]):
                 yield c_, "its leading white-space class matches line feeds / Unicode spaces"
 
     colon = styles[":"]
@@ -2487,7 +2662,8 @@ def r4_one_validation_path(corpus: Corpus, rep: Report, tier: str):
     # fence), every statement that moves a content line into the option lines must be guarded by that refusal as well
     def refuses_fence(e: ast.AST) -> bool:
         for c_ in ast.walk(e):
-            if isinstance(c_, ast.Call) and m.resolve(dotted(c_.func) or "").startswith("re.") and c_.args and isinstance(c_.args[0], ast.Constant) and isinstance(c_.args[0].value, str) and ("(?!::)" in c_.args[0].value or "(?!:{2" in c_.args[0].value):
+            rc_ = _regex_call(c_, f)
+            if rc_ is not None and ("(?!::)" in rc_[0] or "(?!:{2" in rc_[0]):
                 return True
         return any(not pol and isinstance(t_, ast.Call) and isinstance(t_.func, ast.Attribute) and t_.func.attr == "startswith" and t_.args and isinstance(t_.args[0], ast.Constant) and t_.args[0].value == ":::" for t_, pol in split_facts(e, True))
 
@@ -2518,9 +2694,14 @@ def r4_one_validation_path(corpus: Corpus, rep: Report, tier: str):
                 e_ = t_
                 if id(e_) in style_test_nodes:
                     continue  # the test on the whole content says nothing about the line being collected
+                if isinstance(e_, ast.Name):
+                    # a match object bound inside the collecting loop stands for its match call
+                    inloop = [v_ for s2, v_ in simple_defs(f, e_.id) if v_ is not None and cfg.loops.get(s2) is cfg.loops.get(st)]
+                    if len(inloop) == 1:
+                        e_ = inloop[0]
                 if not pol and isinstance(e_, ast.Call) and isinstance(e_.func, ast.Attribute) and e_.func.attr == "startswith" and e_.args and isinstance(e_.args[0], ast.Constant) and e_.args[0].value == ":::":
                     refused = True
-                if pol and refuses_fence(e_) and any(isinstance(c_, ast.Call) and m.resolve(dotted(c_.func) or "").startswith("re.") for c_ in ast.walk(e_)):
+                if pol and refuses_fence(e_) and any(_regex_call(c_, f) is not None for c_ in ast.walk(e_)):
                     refused = True
             if refused:
                 rep.ok("C08.R4", kf, m.site(st))
@@ -3745,6 +3926,18 @@ def mutants(corpus: Corpus):
     f = om.func("_scan_flow_scalar_non_spaces")
     iff = find_node(f, lambda n: isinstance(n, ast.If) and unparse(n.test).startswith("code >"))
     add("c08-chr-range-check-dropped", "C08.R1", splice(om.src, iff.test, "False") if iff is not None else None, "chr(code)", rel_=om.rel, note="reverts 81f388a (F1)")
+    # validate-before-consume: the escape's characters are skipped before the loop that proves them to be hex digits
+    hx = find_node(f, lambda n: isinstance(n, ast.For) and isinstance(n.iter, ast.Call) and unparse(n.iter.func) == "range" and any(isinstance(x, ast.Raise) for x in ast.walk(n))) if (f := om.func("_scan_flow_scalar_non_spaces")) else None
+    fw = None
+    if hx is not None and block_of(hx) is not None:
+        blk_ = block_of(hx)
+        fw = next((st_ for st_ in blk_[blk_.index(hx) + 1 :] if isinstance(st_, ast.Expr) and isinstance(st_.value, ast.Call) and unparse(st_.value.func).endswith(".forward") and st_.value.args and unparse(st_.value.args[0]) == unparse(hx.iter.args[0])), None)
+    if fw is not None:
+        moved = splice(om.src, fw, "pass")
+        moved = splice(moved, hx, ast.get_source_segment(om.src, fw) + "\n" + indent_of(f, hx) + ast.get_source_segment(om.src, hx))
+        add("c08-escape-consumed-before-validation", "C08.R1", moved, "IndexError", rel_=om.rel)
+    else:
+        out.append(("c08-escape-consumed-before-validation", "hex validation loop / forward(length) not found"))
     raises = sorted((n for n in fa.local_nodes() if isinstance(n, ast.Raise) and isinstance(n.exc, ast.Call) and unparse(n.exc.func) == "MarkupError"), key=lambda n: n.lineno)
     add("c08-too-many-raises-valueerror", "C08.R1", splice(src, raises[-1].exc.func, "ValueError") if raises else None, "ValueError")
 
